@@ -45,6 +45,33 @@ for l in (285, 297, 319, 328, 345, 350):
     RULES[("stateful_set_utils.go", l)] = "dead: error branch of encoding / decoding / patching the set's own template, which cannot fail for a decodable object"
 RULES[("stateful_set_utils.go", 373)] = "equiv: skips the status write only when updatedReplicas alone or currentRevision alone differs from the stored status; in every execution produced another field differed too (a pod changing revision also changes readiness; completing a rollout also changes currentReplicas), and the fixed-point census of C12 found the stored counters exact"
 RULES[("stateful_set_utils.go", 374)] = "equiv: skips the status write only when currentRevision alone or updateRevision alone differs; a new update revision comes with a new generation (observedGeneration differs) and a completed rollout changes currentReplicas as well"
+DEAD_PC = "dead: RealPodControl.CreatePods / DeletePod / validateControllerRef / getPodsPrefix are not called by this controller (it only uses PatchPod from this file)"
+for l in (81, 84, 87, 90, 93, 104, 105, 108, 109, 111, 123, 127, 129, 132, 135, 147, 151, 154, 214):
+    RULES[("controller_utils.go", l)] = DEAD_PC
+for l in (78, 81, 85):
+    RULES[("pod.go", l)] = "dead: UpdatePodCondition is not called by this controller"
+RULES[("controller_ref_manager.go", 100)] = "outside: a pod that vanished under its release patch counts as claimed for the rest of that one reconcile"
+RULES[("controller_ref_manager.go", 104)] = "equiv: the caller ignores the boolean when an error is returned"
+RULES[("controller_ref_manager.go", 133)] = "equiv: the caller ignores the boolean when an error is returned"
+RULES[("controller_ref_manager.go", 120)] = "dead: the pod lister is scoped to the set's namespace"
+RULES[("controller_ref_manager.go", 122)] = "dead: the pod lister is scoped to the set's namespace"
+RULES[("controller_ref_manager.go", 230)] = "equiv: after the first claim error the reconcile fails either way and is retried"
+RULES[("controller_ref_manager.go", 250)] = "dead: json.Marshal of the patch struct cannot fail"
+RULES[("controller_ref_manager.go", 261)] = "dead: json.Marshal of the patch struct cannot fail"
+RULES[("controller_ref_manager.go", 262)] = "dead: json.Marshal of the patch struct cannot fail"
+RULES[("controller_ref_manager.go", 265)] = "outside: a release answered NotFound / Invalid now fails the reconcile once more before the cache catches up; the error is reported and retried"
+RULES[("controller_ref_manager.go", 296)] = "outside: blockOwnerDeletion on the owner reference of an adopted pod"
+RULES[("controller_ref_manager.go", 316)] = "dead: json.Marshal of the patch struct cannot fail"
+RULES[("controller_ref_manager.go", 345)] = "dead: json.Marshal of the patch struct cannot fail"
+for l in (50, 54):
+    RULES[("controller_history.go", l)] = "equiv: only reached for distinct names / distinct revision numbers"
+for l in (70, 71):
+    RULES[("controller_history.go", l)] = "dead: nil revisions are never compared"
+for l in (75, 82):
+    RULES[("controller_history.go", l)] = "equiv: the hash labels only short-cut the byte comparison, which decides either way"
+for l in (138, 153):
+    RULES[("controller_history.go", l)] = "dead: this copy of the hashing / naming helpers is not called (the controller has its own in stateful_set_control.go)"
+RULES[("stateful_set_utils.go", 405)] = "equiv: ordinals of distinct pods are distinct"
 RULES[("expansion_generated.go", 61)] = "dead: a lister List never fails"
 RULES[("expansion_generated.go", 68)] = "dead: the list is already scoped to the pod's namespace"
 for l in (76, 89, 102, 114, 122, 138, 150, 239, 240, 248, 253, 262, 267, 276, 281, 294, 299):
